@@ -82,7 +82,11 @@ def partition (A : ArchInfo) (p : Policy) (consts : List Nat) (plen : Nat) :
   -- base vectors: zeros, ones, and one per condition list that tries to satisfy it
   let lists := p.groups.foldl (fun acc g => g.withConds.foldl (fun acc nc => nc.conds :: acc) acc) []
   let bases := [List.replicate 6 0, List.replicate 6 (two64 - 1)] ++
-    (lists.take (if plen > 300 then 5 else 12)).map (fun l => l.foldl (fun b c => setArg b c.arg (satisfying c)) (List.replicate 6 0))
+    (lists.take (if plen > 300 then 5 else 12)).map (fun l =>
+      -- a vector that tries to satisfy the whole list: per argument the value of an `Equal` condition if
+      -- there is one (it is the only value that can), else a value satisfying the last condition on it
+      let b1 := l.foldl (fun b c => setArg b c.arg (satisfying c)) (List.replicate 6 0)
+      l.foldl (fun b c => if opOfString c.op = some .eq then setArg b c.arg c.val.toNat else b) b1)
   (arches, nrs, bases, cands)
 
 /-- argument vectors tried for one architecture word -/
